@@ -74,6 +74,8 @@ def c12_jobs(tier):
         Job('print-f32', 'c12', 'print-f32', q(tier, 6000, 0), flavour='asan2', timeout=q(tier, 900, 7200)),
         Job('print-f64', 'c12', 'print-f64', q(tier, 20000, 2000000), flavour='asan2'),
         Job('deser-float', 'c12', 'deser', q(tier, 100000, 5000000), defines={'ARDUINOJSON_USE_DOUBLE': 0}),
+        # the number-token scanner has a separate character class in NaN / Infinity builds
+        Job('deser-nan-inf', 'c12', 'deser', q(tier, 100000, 5000000), defines={'ARDUINOJSON_ENABLE_NAN': 1, 'ARDUINOJSON_ENABLE_INFINITY': 1, 'ARDUINOJSON_ENABLE_COMMENTS': 1}),
         Job('print-float-cfg', 'c12', 'print-f64', q(tier, 5000, 200000), defines={'ARDUINOJSON_USE_DOUBLE': 0}),
     ]
 
@@ -244,6 +246,7 @@ def c09_jobs(tier):
         Job('decode-memcheck', 'c09', 'decode', q(tier, 10000, 500000), flavour='plain', wrapper='memcheck', timeout=q(tier, 900, 7200), single_timeout=600),
         Job('corrupt-memcheck', 'c09', 'corrupt', q(tier, 4000, 200000), flavour='plain', wrapper='memcheck', timeout=q(tier, 900, 7200), single_timeout=600),
         Job('decode-float', 'c09', 'decode', q(tier, 60000, 2000000), defines=fl),
+        Job('decode-no-long-long', 'c09', 'decode', q(tier, 60000, 2000000), defines={'ARDUINOJSON_USE_LONG_LONG': 0}),
         Job('prefix-small', 'c09', 'prefix', q(tier, 5000, 200000), defines={'ARDUINOJSON_STRING_LENGTH_SIZE': 1, 'ARDUINOJSON_SLOT_ID_SIZE': 1, 'ARDUINOJSON_DEBUG': 1}),
         Job('corrupt-wide', 'c09', 'corrupt', q(tier, 8000, 300000), defines={'ARDUINOJSON_STRING_LENGTH_SIZE': 4}),
     ]
